@@ -218,3 +218,108 @@ func propC08(t *rapid.T) {
 	}
 	vt.Run(t, c08Rec, c, checkC08)
 }
+
+// TestC08Large: tens of thousands of trips with a few stop times each, or one trip / one shape with tens of thousands of rows,
+// all rows written in descending sequence: whatever sorts or groups differently beyond a size must still sort every trip and
+// every shape. Every (kind, size) combination runs in every tier.
+func TestC08Large(t *testing.T) {
+	type cfg struct {
+		kind string
+		n    int
+	}
+	for _, k := range []cfg{{"trips", 9001}, {"trips", 16387}, {"trips", 20003}, {"trips", 65539}, {"rows-per-trip", 9001}, {"rows-per-trip", 70001}} {
+		k := k
+		t.Run(fmt.Sprintf("%s-%d", k.kind, k.n), func(outer *testing.T) {
+			fail := ""
+			defer func() {
+				if fail != "" {
+					outer.Fatalf("%s", fail)
+				}
+			}()
+			rapid.Check(outer, func(t *rapid.T) {
+				o := sgen.DefaultGenOpts()
+				o.MinTrips, o.MaxTrips, o.MinShapes, o.MaxShapes = 2, 3, 2, 2
+				o.MinStopTimes, o.MaxStopTimes, o.MinPoints, o.MaxPoints = 3, 3, 3, 3
+				o.MaxFreq, o.MaxTransfers = 0, 0
+				base, _ := sgen.GenFeed(t, o)
+				f := *base
+				f.Trips = append([]sgen.Trip(nil), base.Trips...)
+				f.StopTimes = append([]sgen.StopTime(nil), base.StopTimes...)
+				f.Shapes = append([]sgen.ShapeRow(nil), base.Shapes...)
+				byTrip := map[string][]sgen.StopTime{}
+				for _, st := range base.StopTimes {
+					byTrip[st.TripID] = append(byTrip[st.TripID], st)
+				}
+				if k.kind == "trips" {
+					for i := 0; len(f.Trips) < k.n; i++ {
+						tr := base.Trips[i%len(base.Trips)]
+						orig := tr.ID
+						tr.ID = fmt.Sprintf("%s~%d", orig, i)
+						f.Trips = append(f.Trips, tr)
+						for _, st := range byTrip[orig] {
+							st.TripID = tr.ID
+							f.StopTimes = append(f.StopTimes, st)
+						}
+					}
+				} else {
+					tr := base.Trips[0]
+					rows := byTrip[tr.ID]
+					if len(rows) == 0 || len(base.Shapes) == 0 {
+						t.Skip("no rows to extend")
+					}
+					last := rows[len(rows)-1]
+					maxSeq := 0
+					for _, r := range rows {
+						maxSeq = max(maxSeq, r.Seq)
+					}
+					for i := 0; i < k.n; i++ {
+						st := last
+						st.Seq = maxSeq + 1 + i
+						f.StopTimes = append(f.StopTimes, st)
+					}
+					lastPt := base.Shapes[len(base.Shapes)-1]
+					maxPt := 0
+					for _, r := range base.Shapes {
+						if r.ShapeID == lastPt.ShapeID {
+							maxPt = max(maxPt, r.Seq)
+						}
+					}
+					for i := 0; i < k.n; i++ {
+						r := lastPt
+						r.Seq = maxPt + 1 + i
+						f.Shapes = append(f.Shapes, r)
+					}
+				}
+				// canonical order first (grouped, ascending), then everything reversed: every group arrives in descending sequence
+				sort.SliceStable(f.StopTimes, func(i, j int) bool {
+					if f.StopTimes[i].TripID != f.StopTimes[j].TripID {
+						return f.StopTimes[i].TripID < f.StopTimes[j].TripID
+					}
+					return f.StopTimes[i].Seq < f.StopTimes[j].Seq
+				})
+				sort.SliceStable(f.Shapes, func(i, j int) bool {
+					if f.Shapes[i].ShapeID != f.Shapes[j].ShapeID {
+						return f.Shapes[i].ShapeID < f.Shapes[j].ShapeID
+					}
+					return f.Shapes[i].Seq < f.Shapes[j].Seq
+				})
+				rev := func(n int) []int {
+					out := make([]int, n)
+					for i := range out {
+						out[i] = n - 1 - i
+					}
+					return out
+				}
+				c := CaseC08{Feed: &f, STPerm: rev(len(f.StopTimes)), ShapePerm: rev(len(f.Shapes))}
+				c.Env = genEnv(t)
+				c08Rec.Eval(fmt.Sprintf("large:%s>=%d", k.kind, k.n))
+				c08Rec.NontrivialCase(vt.Fingerprint([]any{k.kind, k.n, len(f.Trips), len(f.StopTimes)}), func() any {
+					return map[string]any{"kind": k.kind, "trips": len(f.Trips), "stop_times_rows": len(f.StopTimes), "shape_rows": len(f.Shapes), "row_order": "reversed"}
+				})
+				if msg := vt.Try(c08Rec, c, checkC08); msg != "" && fail == "" {
+					fail = msg
+				}
+			})
+		})
+	}
+}
